@@ -282,6 +282,7 @@ const (
 	CacheSLRU2
 	CacheLFU1
 	CacheSessionSLRU1
+	CacheNoneShared // caching disabled by policy although a shared intermediate-key cache was asked for as well
 	NumCacheConfigs
 )
 
@@ -290,6 +291,10 @@ func (e *Env) Policy(p PolicyChoice, cache int) *ae.CryptoPolicy {
 	pol.CreateDatePrecision = p.Precision
 	switch cache {
 	case CacheNone:
+		ae.WithNoCache()(pol)
+	case CacheNoneShared:
+		// policy.go: SharedIntermediateKeyCache "is ignored if CacheIntermediateKeys is disabled"
+		ae.WithSharedIntermediateKeyCache(4)(pol)
 		ae.WithNoCache()(pol)
 	case CacheLRU1:
 		pol.IntermediateKeyCacheMaxSize = 1
@@ -313,6 +318,18 @@ func (e *Env) Policy(p PolicyChoice, cache int) *ae.CryptoPolicy {
 		pol.SessionCacheEvictionPolicy = "slru"
 	}
 	return pol
+}
+
+// NoCaching: the cache configurations under which the policy disables key caching.
+func NoCaching(cache int) bool { return cache == CacheNone || cache == CacheNoneShared }
+
+// CacheChoice: the cache configuration of a run - one of the first `caches` configurations, or, when the spec entry
+// sets cache_only=k+1, exactly configuration k.
+func CacheChoice() int {
+	if k := vx.Param("cache_only"); k > 0 {
+		return k - 1
+	}
+	return vx.Choice("cache", vx.Param("caches"))
 }
 
 func (e *Env) Factory(pol *ae.CryptoPolicy) *ae.SessionFactory {
